@@ -33,6 +33,33 @@ def free_port() -> int:
     return p
 
 
+_caps = {}
+
+
+def can(what: str) -> bool:
+    """Is a real chroot() / a real drop to nobody possible in this environment?  (Tried in a child process.)"""
+    if what not in _caps:
+        pid = os.fork()
+        if pid == 0:
+            try:
+                if what == "chroot":
+                    os.chroot("/")
+                else:
+                    os.setgroups(())
+                    os.setregid(NOBODY_GID, NOBODY_GID)
+                    os.setreuid(NOBODY_UID, NOBODY_UID)
+                os._exit(0)
+            except BaseException:  # noqa
+                os._exit(1)
+        _, st = os.waitpid(pid, 0)
+        _caps[what] = os.WIFEXITED(st) and os.WEXITSTATUS(st) == 0
+    return _caps[what]
+
+
+def supported(mode) -> bool:
+    return (not mode.get("chroot") or can("chroot")) and (not mode.get("drop") or can("drop"))
+
+
 def open_up(path):
     """Make `path` and every directory above it (inside the scratch area) searchable by everybody:
     a server that has dropped to `nobody` must be able to reach its document root."""
@@ -98,9 +125,32 @@ class Server:
         env["PYTHONDONTWRITEBYTECODE"] = "1"
         env.update(mode.get("env", {}))
         self.logf = open(self.logpath, "wb")
-        self.proc = subprocess.Popen([sys.executable, os.path.join(rig.REPO, "bin", "pygopherd"), self.conf], cwd=self.site, env=env,
-                                     stdout=self.logf, stderr=subprocess.STDOUT, start_new_session=True, preexec_fn=mode.get("preexec"))
+        self._env = env
+        self._launch()
         self.started = self._wait_port()
+        if not self.started and b"Address already in use" in self.log():
+            # the port probed as free was taken in the meantime: once more on another one
+            self._kill()
+            self.port = free_port()
+            config.set("pygopherd", "port", str(self.port))
+            with open(self.conf, "w") as f:
+                config.write(f)
+            self._launch()
+            self.started = self._wait_port()
+
+    def _launch(self):
+        self.proc = subprocess.Popen([sys.executable, os.path.join(rig.REPO, "bin", "pygopherd"), self.conf], cwd=self.site, env=self._env,
+                                     stdout=self.logf, stderr=subprocess.STDOUT, start_new_session=True, preexec_fn=self.mode.get("preexec"))
+
+    def _kill(self):
+        try:
+            os.killpg(self.proc.pid, signal.SIGKILL)
+        except OSError:
+            pass
+        try:
+            self.proc.wait(5)
+        except Exception:  # noqa
+            pass
 
     def _wait_port(self, limit=8.0):
         end = time.time() + limit
